@@ -872,6 +872,19 @@ func (t *tester) misc(which int) {
 			t.exec(cl.JSON("POST", "/v2/collections/colv2/points", "alice", "basic", map[string]any{"points": []any{map[string]any{"_id": p9, "vec": vec}}}), expect, fmt.Sprintf("stored vector of length %d on a 2-d index", n))
 			t.exec(cl.JSON("POST", "/v2/collections", "alice", "basic", map[string]any{"id": fmt.Sprintf("dim%d", n), "indexSchema": map[string]any{"v": map[string]any{"type": "vectorFlat", "vectorFlat": map[string]any{"vectorSize": n, "distanceMetric": "euclidean"}}}}), map[bool]string{true: "invalid", false: "any"}[n > 4096], fmt.Sprintf("index of dimension %d", n))
 		}
+		// the haversine metric needs two components, whatever other (optional) parameter blocks the index entry carries
+		for _, qz := range []map[string]any{nil, {"type": "none"}, {"type": "binary", "binary": map[string]any{"threshold": 0.5, "distanceMetric": "hamming"}}} {
+			for _, kind := range []string{"vectorFlat", "vectorVamana"} {
+				params := map[string]any{"vectorSize": 3, "distanceMetric": "haversine"}
+				if kind == "vectorVamana" {
+					params = map[string]any{"vectorSize": 3, "distanceMetric": "haversine", "searchSize": 75, "degreeBound": 64, "alpha": 1.2}
+				}
+				if qz != nil {
+					params["quantizer"] = qz
+				}
+				t.exec(cl.JSON("POST", "/v2/collections", "bob", "basic", map[string]any{"id": "geo3", "indexSchema": map[string]any{"g": map[string]any{"type": kind, kind: params}}}), "invalid", fmt.Sprintf("%s index with the haversine metric and vector size 3 (quantizer block %v)", kind, qz))
+			}
+		}
 		// a composite query that carries BOTH sub-query lists: the list named by its property is the one
 		// that is executed, so that is the one whose members must be checked against the index schema
 		{
